@@ -1483,8 +1483,13 @@ def einsum(*operands, **kwargs):
     for t, term in enumerate(terms):
         shape = operands[t].shape
         for ix, d in zip(term, shape, strict=False):
-            if d != sizes.setdefault(ix, d):
-                raise ValueError(f"Inconsistent shape for index '{ix}'.")
+            d0 = sizes.setdefault(ix, d)
+            if d != d0:
+                # like numpy.einsum, an extent of 1 broadcasts against any other extent
+                if d0 == 1:
+                    sizes[ix] = d
+                elif d != 1:
+                    raise ValueError(f"Inconsistent shape for index '{ix}'.")
             total.setdefault(ix, set()).add(t)
     for ix in rhs:
         total[ix].add(-1)
